@@ -217,6 +217,17 @@ def standard_run(pid, tier, profiles, nquick, nthorough, steps=(18, 26), directe
             p2, sig = mc_signature(r)
             v.violation("TLC: %s on ArrayMC (simulation): %s" % (sig, " ".join(mc_trace_actions(r))),
                         replay_obj={"kind": "tlc-trace", "trace": r.trace}, signature=sig, pid=p2)
+    if sim:
+        # the whole command set (rehash, scrub, sync -R, fix under -d / -f / -m / -e / -b) on top of the same state machine
+        r = run_mc(os.path.join(vlib.SPEC, "ArrayMC_ext.cfg"), workers=8, simulate=250 if quick else 20000, depth=11,
+                   timeout=180 if quick else 2400)
+        trans += r.generated
+        cov["mc"].append({"cfg": "simulate ArrayMC_ext (Ext actions: Rehash, Scrub, SyncR, FixD/FixF/FixM/FixE), histories of 9 actions",
+                          "generated": r.generated, "violated": r.violated})
+        if r.violated:
+            p2, sig = mc_signature(r)
+            v.violation("TLC: %s on ArrayMC_ext (simulation): %s" % (sig, " ".join(mc_trace_actions(r))),
+                        replay_obj={"kind": "tlc-trace", "trace": r.trace}, signature=sig, pid=p2)
     s0 = vlib.seed() * 100000
     jobs = list(directed_jobs(s0)) if callable(directed_jobs) else list(directed_jobs)
     n = nquick if quick else nthorough
